@@ -25,7 +25,8 @@ for dir in "$VERIF"/mutants/*/ "$VERIF"/seeded/*/; do
   prop="$(jq -r .property "$dir/meta.json" 2>/dev/null)"
   also="$(jq -r '.also_run // [] | join(" ")' "$dir/meta.json" 2>/dev/null)"
   rm -rf "$W/repo"; mkdir -p "$W/repo"
-  (cd /repo && git archive HEAD) | tar -x -C "$W/repo"
+  base="$(jq -r '.base_commit // "HEAD"' "$dir/meta.json" 2>/dev/null)"; [ -n "$base" ] || base=HEAD   # sub-agent changes apply to the commit they were made against
+  (cd /repo && git archive "$base") | tar -x -C "$W/repo"
   if ! (cd "$W/repo" && patch -p1 -s < "$dir/patch.diff") >"$W/apply.log" 2>&1; then
     printf "%-34s %-5s %s\n" "$id" "$prop" "PATCH-DOES-NOT-APPLY"; broken=$((broken+1)); continue
   fi
